@@ -8,7 +8,7 @@ wt = sys.argv[2]
 rnd = sys.argv[3] if len(sys.argv) > 3 else ""      # round tag, e.g. r2
 import glob, os
 taken = []
-for d in sorted(glob.glob("/verif/seeded/%s-*" % pid)):
+for d in sorted(glob.glob("/verif/seeded/%s-*" % pid) + glob.glob("/verif/seeded/pending/%s-*" % pid)):
     try:
         taken.append(json.load(open(os.path.join(d, "meta.json"))).get("summary", "")[:300].replace("\n", " "))
     except Exception:
